@@ -23,7 +23,8 @@ CHECKS["C03"] = ("bfs+sweep (worker subprocesses)", "model_checking",
     "Every reachable state of the two production decoders with a buffer of at most B bytes over a representative alphabet "
     "(one byte per class of the production DFA that matters structurally) is visited and from each every continuation of length <= 2 (3) "
     "is fed whole, byte by byte and with empty reads; all strings up to length 4-5 over the alphabet (and all byte strings up to length 2-3) "
-    "are decoded under ALL partitions into reads; the incremental tokeniser core is instantiated (hook H1) over every set of up to 2 (3) "
+    "are decoded under ALL partitions into reads - each partition twice: as separate reads and as successive fill_buf slices of ONE reader; "
+    "for every looping state of the automata a read of 32 / 65 filler bytes followed by every way of leaving the loop starts inside the loop (bulk handling of long reads); the incremental tokeniser core is instantiated (hook H1) over every set of up to 2 (3) "
     "patterns from a pool of 14 and run on every input over {a,b,c} up to length 7 (8) under all partitions. Each execution is compared with "
     "the others (same events, same final state) and with a reference leftmost-longest tokenisation computed from per-prefix acceptance of "
     "the DFA (production) / from regular-expression derivatives (pattern sets). States/transitions are those of the real decoder.",
@@ -45,9 +46,9 @@ CHECKS["C01"] = ("bfs", "model_checking",
 CHECKS["C16"] = ("bfs + devdfs (worker subprocesses)", "model_checking",
     "explicit-state BFS of the real IOQueue against a byte model + deviation-bounded enumeration of kernel answers for the real UnixTerminal on a pty",
     "(a) BFS over all histories of write/flush/read/consume/consume_with/fill_buf/clear_but_last on the real IOQueue (payload capped) to the depth bound: in every state "
-    "len() must equal the readable bytes, bytes come out in order exactly once, and a drop may remove only whole flush-delimited chunks that have not started. "
+    "len() must equal the readable bytes, bytes come out in order exactly once, and a drop may remove only whole flush-delimited chunks that have not started; a second pass over one-byte and 64 KiB / 70 001-byte writes and consumes to depth 7 (9) covers buffer re-allocation thresholds. "
     "(b) The real UnixTerminal runs scripted write/execute/flush/poll/frames_drop sessions on a real pseudo-terminal while hook H2 lets the harness answer every "
-    "select/write/read and own the clock; ALL schedules with at most 2 (3; short sessions 3 (4)) departures from the cooperative answer (short write of 1 / half / len-1 bytes, EAGAIN, EINTR, "
+    "select/write/read and own the clock; ALL schedules with at most 2 (3; short sessions 3 (4), in the quick tier not those pushing more than 64 KiB) departures from the cooperative answer (short write of 1 / half / len-1 bytes, EAGAIN, EINTR, "
     "withheld or delayed writability) are executed to completion, for every crash point of every session; the bytes accepted by the tty must be the written chunks in order, whole, "
     "with only not-yet-started chunks missing after frames_drop.",
     "Kernel model (write accepts a prefix, select never invents readiness); encoder output taken as given (C05); sessions and payload sizes are the listed ones; more deviations than the bound are not explored.",
@@ -55,7 +56,7 @@ CHECKS["C16"] = ("bfs + devdfs (worker subprocesses)", "model_checking",
 CHECKS["C17"] = ("devdfs (worker subprocesses)", "fault_enumeration",
     "deviation-bounded enumeration of environment events (wake, SIGWINCH, SIGTERM, input, hang-up) at every system-call boundary and of every crash point, real UnixTerminal on a pty",
     "Same explorer as C16(b). In addition a waker call, SIGWINCH, SIGTERM, the next input bytes or a hang-up may land before ANY select/write/read or between the signal, waker and input "
-    "phases of the poll loop (hook points), each costing one deviation; polls use timeouts 0, 5 ms (virtual clock) and infinite; bursts of 127 / 128 / 256 / 1024 wake requests before one poll; the terminal is released after every prefix of every session. "
+    "phases of the poll loop (hook points), each costing one deviation; polls use timeouts 0, 5 ms (virtual clock) and infinite; bursts of 127 / 128 / 256 / 1024 wake requests before one poll; a termination and a window-size signal pending together in both orders; the terminal is released after every prefix of every session. "
     "Oracle: a wake is followed by a Wake event from the current or a later poll and never blocks a poll for ever; SIGWINCH yields a Resize; SIGTERM yields the quit error; input bytes come out "
     "as the events a reference decoder gives, in order; no quit without cause; after release tcgetattr equals the saved settings and, if the tty kept accepting writes, the closing sequence "
     "(cursor visible, mouse modes off) was delivered. Every failing schedule is replayed twice and must fail identically.",
@@ -65,7 +66,7 @@ CHECKS["C17"] = ("devdfs (worker subprocesses)", "fault_enumeration",
 CHECKS["C02"] = ("sweep (worker subprocesses)", "exploration",
     "exhaustive enumeration of byte strings, UTF-8 lattice, hostile-token lattice and edit neighbourhoods in worker subprocesses",
     "Every byte string up to length 2 (3) over all 256 bytes for the three decoders, the UTF-8 boundary lattice (every lead byte x boundary continuation bytes) and every Unicode scalar value, "
-    "36 sequence templates x a 16-value hostile number lattice for every numeric field plus ~120 fixed malformed tokens, and all single (double) byte edits of 130 base tokens are fed whole, "
+    "36 sequence templates x a 16-value hostile number lattice for every numeric field plus ~120 fixed malformed tokens, 16 sequence shapes with one numeric field taking EVERY value 0..=70 000 (every value up to 0x110010), and all single (double) byte edits of 130 base tokens are fed whole, "
     "at every cut, byte by byte and with empty reads (all partitions up to length 5). Oracle: no panic, no abort or stall of the worker process (attributed to the exact input through a memory-mapped progress record "
     "and confirmed in a fresh process), decode returns None once input is exhausted and keeps doing so, every char is a scalar value, raw events are non-empty, and every numeric field of a recognised event is the exact "
     "transmitted value, the type's maximum, or the sequence is unrecognised. Strings over the representative alphabet up to length 4-5 under all partitions run through the same driver in C03.",
@@ -109,7 +110,8 @@ CHECKS["C18"] = ("bfs + sweep", "model_checking",
     "BFS over histories of register(chord of length 1-3 over {a,b,ctrl+c}) to depth 3 (4) and over {a,b} to depth 4 (6) with an observational key (for_each listing + lookup of every chord up to length 4): in every state all lookups, "
     "the enumeration and register's return value are compared with a last-writer-wins prefix-free dictionary. register_override over all ordered pairs of 1 435 (2 729) small maps. KeyMapHandler/lookup_state on every prefix-free set of up to 3 (4) chords x "
     "every key string up to length 5 (6) over {a,b,c,x}: fires exactly at the last key from idle, an unbound key never blocks the next chord, every firing is sound. Parsers: all strings of <= 3 (5) tokens over a 24-token alphabet, f+1..30 digits, "
-    "every KeyName x 2^9 modifier sets printed and re-parsed, every code point below U+3000 (every scalar value) in ten raw spellings (bare, quoted, with modifiers, inside chords).",
+    "every KeyName x 2^9 modifier sets printed and re-parsed, every code point below U+3000 (every scalar value) in ten raw spellings (bare, quoted, with modifiers, inside chords), all ordered pairs of 22 modifier-like words around four keys in five arrangements; "
+    "registrations between two chords: for all ordered pairs of 195 small binding sets, a matcher that the statement calls idle must answer like a fresh one after the second set is registered (lookup_state with the caller's buffer and KeyMapHandler).",
     "What happens after a partially typed chord is abandoned by a key that itself begins a chord is not demanded (statement silent); chords longer than 3 as registrations are not explored.",
     "DESIGN.md §C18")
 CHECKS["C20"] = ("sweep", "exploration",
@@ -122,7 +124,7 @@ CHECKS["C20"] = ("sweep", "exploration",
 
 CHECKS["C04"] = ("sweep", "exploration",
     "exhaustive enumeration of every sequence family x parameter lattice from an independent protocol printer, plus all pairs/triples of tokens under all <= 2-cut partitions",
-    "An independent printer (model/keytable.rs: golden key table + per-family encoders written from xterm ctlseqs / kitty / fixterms) emits every legacy key, SGR mouse report (128 codes x m/M x coordinate lattice incl. 1 and 65535), "
+    "An independent printer (model/keytable.rs: golden key table + per-family encoders written from xterm ctlseqs / kitty / fixterms) emits every legacy key, SGR mouse report (all 256 button codes x m/M x coordinate lattice incl. 1 and 65535), "
     "cursor / size / DECRPM / DA1 / OSC 4,10,11 (every 1-4 digit rgb component) / XTGETTCAP / kitty keyboard (EVERY Unicode scalar value x modifier values, every modifier mask) / kitty image / paste / DECRPSS / SGR (both colour forms, multi-colour) report "
     "and every printable scalar as text: 8.3 M distinct inputs, 26 M (318 M) decodes. 69 representative tokens are concatenated in all ordered pairs (and triples) and fed under every partition with at most two cuts. "
     "The decoded event list must equal the printer's intention exactly, arrive with the last byte, and leave nothing buffered.",
@@ -131,7 +133,7 @@ CHECKS["C04"] = ("sweep", "exploration",
 CHECKS["C05"] = ("sweep", "exploration",
     "exhaustive enumeration of commands x parameter lattices x capability configurations, interpreted by an independent ECMA-48/xterm parser",
     "All 28 TerminalCommand variants x boundary lattices (positions/counts {0,1,2,9,10,99,65535}, signed moves and scrolls over {MIN,MIN+1,-10,-1,0,1,10,MAX}^2, all DEC modes, palette names and colours, every printable title / capability name up to length 2 (3), "
-    "150 528 (3.05 M) faces = colours x all attribute sets x underline styles, 72 576 face modifications) x 12 configurations (3 colour depths x kitty keyboard x glyphs) are encoded by the real TTYEncoder and parsed by model/ecma48.rs "
+    "every value 0..=70 000 of each numeric parameter of CursorTo / CursorMove / Scroll / ScrollRegion / EraseChars / KeyboardLevel / Color and every scalar value as Char, titles / names / raw payloads of 31..70 000 bytes, 150 528 (3.05 M) faces = colours x all attribute sets x underline styles, 72 576 face modifications) x 12 configurations (3 colour depths x kitty keyboard x glyphs) are encoded by the real TTYEncoder and parsed by model/ecma48.rs "
     "(byte-level C0/ESC/CSI/OSC/DCS/APC parser + operation decoder written from ECMA-48 / xterm ctlseqs); the operation list must equal the command's denotation with exact parameters, SGR must select exactly the requested rendition from three different "
     "start renditions, encode never panics; all 2 025 ordered pairs of 45 representative commands in one stream must parse back to the concatenation (self-containedness); colour history: every ordered pair of 24 colours (6 RGB x 4 alpha values) "
     "in every ordered pair of colour slots under the three depths, as two commands on one encoder and as one command, must convert each colour as a fresh encoder does.",
@@ -139,7 +141,7 @@ CHECKS["C05"] = ("sweep", "exploration",
     "DESIGN.md §C05")
 CHECKS["C06"] = ("sweep + bfs", "model_checking",
     "complete round-trip sweep encoder->decoder under partitions + explicit-state BFS over SGR histories through the escape-sequence cell writer against a reference SGR state machine",
-    "(a) Every FaceModify and Face of the lattice is encoded in true-colour mode and decoded by TTYCommandDecoder under every partition with at most 2 (1 for the large lattices) cuts; all 1.1 M characters except ESC round-trip as Char. "
+    "(a) Every FaceModify and Face of the lattice is encoded in true-colour mode and decoded by TTYCommandDecoder under every partition with at most 2 (1 for the large lattices) cuts; every value of each colour channel in each colour slot; all 1.1 M characters except ESC round-trip as Char. "
     "(b) BFS with state = current face of a CellWrite sink behind tty_writer(): 600 operations (sequences of 1-2 tokens from a 24-token SGR alphabet the library claims, each followed by a character whose cell face is observed), "
     "depth 2 (thorough: to the fixpoint, 1 600 states, 960 k transitions), the last sequence written under every <= 2-cut partition and byte by byte; reference: model/sgr.rs (each attribute and colour set/cleared independently, later parameters win, 0 resets).",
     "SGR 21 and codes the library does not claim are outside the alphabet; underline colour has no slot in Face.",
@@ -156,7 +158,7 @@ CHECKS["C07"] = ("bfs", "model_checking",
     "DESIGN.md §C07")
 CHECKS["C09"] = ("sweep", "exploration",
     "exhaustive enumeration of cell sequences x view placements x all write partitions against a sentinel canvas",
-    "All sequences of up to 4 (6) cells over 12 kinds (narrow, 2-byte, wide, two zero-width, newline, tab, CR, glyph with narrow / wide fallback, images of 1 and 2x2 cells) are written into views of 1..3 x 1..5 cells placed plainly, offset, strided (stride 2) and transposed "
+    "All sequences of up to 4 (6) cells over 12 kinds (byte level: 8 character kinds and a four-byte character; plus runs of 33 / 70 characters followed by each kind, cut at every position) (narrow, 2-byte, wide, two zero-width, newline, tab, CR, glyph with narrow / wide fallback, images of 1 and 2x2 cells) are written into views of 1..3 x 1..5 cells placed plainly, offset, strided (stride 2) and transposed "
     "inside a 7x10 sentinel canvas, wraps on/off, glyph support on/off, cursor at the origin or in the last column, through put_cell, io::Write on TerminalWriter, utf8_writer(), tty_writer() (SGR between characters) and the Text view (layout + render). "
     "Oracle: no canvas cell outside the view changes; ALL 2^(n-1) partitions of the bytes into write calls (byte strings up to 12 bytes; <= 2 cuts and byte-by-byte beyond) give the same canvas and no partition-dependent error; the write paths agree with each other; "
     "for Text rendered into the size its own layout reported for max widths 1..6 every printable cell (glyph fallback characters without glyph support) appears exactly once in reading order, with wrapping off only cells beyond the right edge are missing; for texts with a glyph or image the same holds for a value that was laid out before under the other glyph capability, another cell size and another width and then cloned (layout history).",
@@ -172,7 +174,7 @@ CHECKS["C10"] = ("sweep", "exploration",
     "DESIGN.md §C10")
 CHECKS["C13"] = ("sweep", "exploration",
     "exhaustive small-image and small-palette sweeps against brute-force nearest-colour search",
-    "All images of up to 4 (6) pixels over a 12-colour alphabet in every arrangement (crops of a poisoned border included), all multiset images with each colour 0..=2 times (so that the octree pruning loop is reached: it needs >= 9 distinct colours), subsampled periodic images, "
+    "All images of up to 4 (6) pixels over a 12-colour alphabet in every arrangement (crops of a poisoned border included), all multiset images with each colour 0..=2 times (so that the octree pruning loop is reached: it needs >= 9 distinct colours), subsampled periodic images, flat 1 x n images around the counts where a channel sum leaves the exact range of f32 (n = 65 788..65 812, 132 107, 197 381), all images of up to 4 pixels over two RGB values x five alpha values, "
     "x requested sizes {1..10, 256} x dithering on/off x 2 (3) backgrounds: 15.8 M (414 M) quantisations; all palettes of 1-3 colours over a 4^3 lattice x 125 queries and 5 (8) structured palettes of 2..512 colours (xterm-256, clustered, all-equal, duplicates) x ALL 2^24 queries against brute force. "
     "Oracle: Some for non-empty images, 1 <= |palette| <= max(requested, 8), indices valid, without dithering each pixel maps to an entry at minimal squared RGB distance from the composited pixel, find is minimal for every query, exact reproduction when the distinct colours fit and the image is not subsampled; a watchdog turns a stuck pruning loop into a violation.",
     "Compositing of transparent pixels uses the rasterize crate's blend_over (assumed); which of several tied entries wins is not judged; palettes smaller than necessary are allowed by the statement (measured and reported as a lead).",
@@ -180,7 +182,7 @@ CHECKS["C13"] = ("sweep", "exploration",
 CHECKS["C19"] = ("sweep (worker subprocesses)", "exploration",
     "complete round-trip lattices + deviation-bounded enumeration of JSON mutations in resource-limited worker subprocesses",
     "Round trips: 2.74 M faces (thorough: the full 48.2 M product of colours incl. alpha x attribute sets) through Display/FromStr and serde, every writable key x 256 modifier sets, chords up to length 3, sizes over {0,1,2,65535,usize::MAX}^2, all crops of images up to 3x3 and 1x1000, hand-built 1/3/4-channel inputs. "
-    "Hostile documents: 12 valid seed documents (Image, Glyph, Text, view trees using every view type) with EVERY single mutation (5 615) in quick and EVERY pair of mutations (2.6 M) in thorough from a 20-value replacement alphabet (null, numbers up to 2^64-1 and 1e308, empty / deep arrays, wrapped sizes, broken base64, every view type name, 100- and 1000-deep nests) plus key deletion, duplication and swaps, "
+    "Hostile documents: 12 valid seed documents (Image, Glyph, Text, view trees using every view type) with EVERY single mutation (5 615) in quick and EVERY pair of mutations (2.6 M) in thorough from a 20-value replacement alphabet (null, numbers up to 2^64-1 and 1e308, empty / deep arrays, an ill-typed leaf under 12 and 120 nested arrays, wrapped sizes, broken base64, every view type name, 100- and 1000-deep nests) plus key deletion, duplication and swaps, "
     "each through the JSON text route and the Value route, in worker subprocesses with an 8 MiB stack, a 3 GiB address-space limit and an 8 s stall timeout. Oracle: deserialisation returns (no panic, abort, stack overflow, stall); every view tree that deserialises is laid out under 6 constraints and rendered into a sentinel-bordered canvas without panicking; accepted and rejected counts must both be non-zero per deserialiser.",
     "Documents larger than the seeds and mutation sets larger than pairs are not enumerated; serde_json's own recursion limit is trusted.",
     "DESIGN.md §C19")
